@@ -30,6 +30,16 @@ def scan_trusted(text):
     lines = text.split('\n')
     for i, l in enumerate(lines):
         code = l.split('//')[0]
+        ms = re.search(r'MODULAR-STUB-OF (\w+)', l)
+        if ms:
+            nm = None
+            for j in range(i, min(i + 8, len(lines))):
+                m2 = re.search(r'\bfn\s+(\w+)', lines[j])
+                if m2:
+                    nm = m2.group(1)
+                    break
+            found.append('modular-stub:%s (contract discharged on the real body in unit %s)' % (nm, ms.group(1)))
+            continue
         if re.search(r'external_body|assume_specification|\buninterp\b|\bassume\s*\(|\badmit\s*\(|external_fn_specification|#\[verifier::external\b|verifier::external_type_specification|verifier::external_trait_specification|broadcast\s+axiom|\baxiom\b', code):
             # name the item: look ahead for fn/struct name
             name = None
@@ -49,8 +59,13 @@ def generate(unit, repo=REPO, canary=False):
         tpl = f.read()
     # includes: //@@ include <file relative to contracts/prelude>
     def inc(m):
-        with open(os.path.join(VERIF, 'contracts', 'prelude', m.group(1).strip())) as g:
-            return g.read()
+        parts = m.group(1).split()
+        with open(os.path.join(VERIF, 'contracts', 'prelude', parts[0])) as g:
+            t = g.read()
+        for kv in parts[1:]:
+            k, v = kv.split('=', 1)
+            t = t.replace('${%s}' % k, v)
+        return re.sub(r'\$\{\w+\}', '0', t)
     for _ in range(3):
         tpl = re.sub(r'^[ \t]*//@@ include (.*)$', inc, tpl, flags=re.M)
     text, ex = extract.expand_template(tpl, repo, unit, canary=canary)
@@ -124,8 +139,11 @@ def run(unit, tier='quick', use_cache=True, repo=REPO, rlimit=None, extra_args=(
         cached['wall_s'] = time.time() - t0
         return cached
     cmd = ['verus', path, '--output-json', '--time', '--multiple-errors', '20'] + list(extra_args)
+    unit_rlimit = re.search(r'^// VERUS-RLIMIT (\d+)', text, flags=re.M)
     if rlimit:
         cmd += ['--rlimit', str(rlimit)]
+    elif unit_rlimit:
+        cmd += ['--rlimit', unit_rlimit.group(1)]
     res['checker_cmd'] = ' '.join(cmd)
     p = subprocess.run(cmd, capture_output=True, text=True, cwd=GEN)
     try:
@@ -164,7 +182,7 @@ def run(unit, tier='quick', use_cache=True, repo=REPO, rlimit=None, extra_args=(
             res['status'] = 'failed'
         elif 'resource' in classes and rlimit is None:
             # retry once with a larger resource limit (DESIGN 2.4)
-            r2 = run(unit, tier, False, repo, rlimit=120, extra_args=extra_args)
+            r2 = run(unit, tier, False, repo, rlimit=400, extra_args=extra_args)
             r2['retried_rlimit'] = True
             return r2
         elif 'resource' in classes:
